@@ -613,7 +613,11 @@ def run_case(ctx, d, exprs, metas, tag):
             from holopy.scattering.theory import MieLens
             ts = d["theory"][1]
             theory = MieLens(lens_angle=d["vals"][ts[1]] if ts[0] == "p" else ts[1])
-        if ll[0] == "val":
+        if scat is None and lp[0] == "val" and lp[1] != float("-inf"):
+            # values inside every prior's support that yield an invalid scatterer: the log-prior must be -inf
+            ctx.violation("lnprior:invalid-scatterer-finite",
+                          "lnprior is %r for parameter values that yield an invalid scatterer (must be -inf)" % (lp[1],), meta)
+        if ll[0] == "val" and scat is not None:
             if alpha:
                 expect = calc_holo(data, scat, theory=theory,
                                    scaling=d["vals"][d["alpha"][1]] if d["alpha"][0] == "p" else d["alpha"][1],
